@@ -14,12 +14,16 @@ MANIFEST = dict(
          "loop nesting, include depth, strings per rule, identifier length, integer literal range, regex split ids, fiber pool and the timeout "
          "cadence (clock read every N instructions / every S bytes, for any instruction sequence however it is cut into rules: no opcode writes "
          "the counter), history-free literal acceptance (every literal rule clears errno before its strtoll) and the configuration set/get round "
-         "trip; operators, constants and these structural facts are regenerated from the C source on every run. "
+         "trip, files of one compiler independent of each other at the include-depth limit (name popped under the condition it was pushed), one "
+         "deadline per resumed scan (stopwatch not restarted on resume), every string of a rule counted; operators, constants and these structural "
+         "facts are regenerated from the C source on every run. "
          "The model is tied to the code by running each limit at L-1, L, L+1, >>L through the real API (and _yr_scan_add_match_to_list, "
          "_yr_re_fiber_create, yr_re_ast_emit_code directly) and diffing with the model's prediction, plus 'library usable afterwards' and "
          "'results of rule B with/without the limit-hitting rule A'; literal boundaries also in SEQUENCES (rejected literals / underflowing floats "
          "first: fresh compilers, same compiler, same source); a third of the cases that configure a limit do so around nested "
-         "yr_initialize()/yr_finalize() and read the configuration back. Timeliness of timeouts is only sampled (10 rule shapes incl. hundreds "
+         "yr_initialize()/yr_finalize() and read the configuration back; strings-per-rule with referenced / anonymous / unreferenced `$_` strings; "
+         "include depth also through yr_compiler_add_file with several files per compiler; block timeouts also over a non-blocking iterator "
+         "(ERROR_BLOCK_NOT_READY, resumed). Timeliness of timeouts is only sampled (10 rule shapes incl. hundreds "
          "of short expensive rules, deadline + delta).",
     design_ref="DESIGN.md §5 C15",
     note=core.TB + "Wall-clock bound of timeouts is a sampled liveness check (delta 5 s); the cost of one candidate verification / one module call "
@@ -399,6 +403,27 @@ class Gen:
             self.add("in", "compile m=incl names=%s top=%s text=%s %s%s" % (",".join(chain), top or "-", hx(text), " ".join(parts),
                                                                          self.L("YR_MAX_INCLUDE_DEPTH")))
 
+    def file_sequences(self):
+        # the include-depth limit through yr_compiler_add_file (file name given, NULL namespace: what the command-line tool does),
+        # SEVERAL files per compiler: depth at the limit in the 1st / 2nd / 3rd file, many plain files, a repeated file name
+        L = self.c["YR_MAX_INCLUDE_DEPTH"]
+        seqs = []
+        for pos in (0, 1, 2):
+            for d in (L - 2, L - 1, L, 2 * L):
+                fs = [("f%d.yar" % i, 1 if i != pos else max(d, 0)) for i in range(pos + 1)]
+                seqs.append(fs)
+                seqs.append(fs + [("last.yar", max(L - 1, 0))])
+        seqs.append([("p%d.yar" % i, 0) for i in range(40)])
+        seqs.append([("p%d.yar" % i, 0) for i in range(L + 1)] + [("deep.yar", L - 1)])
+        seqs.append([("p%d.yar" % i, i % 3) for i in range(2 * L + 3)])
+        seqs.append([("a.yar", 0), ("a.yar", 0)])
+        seqs.append([("a.yar", 2), ("b.yar", 1), ("a.yar", 2), ("a.yar", L - 1)])
+        for _ in range(20 if self.tier == "quick" else 150):
+            seqs.append([(self.r.choice(["a.yar", "b.yar", "c.yar", "dir/d.yar"]), self.r.choice([0, 0, 1, 2, L - 2, L - 1, L]))
+                         for _ in range(self.r.randint(1, L + 4))])
+        for fs in seqs:
+            self.add("fq", "fileseq m=fileseq files=%s%s" % (",".join("%s:%d" % f for f in fs), self.L("YR_MAX_INCLUDE_DEPTH")))
+
     def strings_per_rule(self):
         if self.explicit:
             return
@@ -407,28 +432,42 @@ class Gen:
         for _ in range(25 if self.tier == "quick" else 200):
             M = self.r.randint(0, 40)
             cfgs.append((M, self.r.choice([M - 1, M, M + 1, self.r.randint(0, 60)])))
-        for M, n in cfgs:
+        # how the strings are named / used: the limit counts EVERY string of the rule —
+        #   ref: all referenced (`any of them`);  anon: anonymous `$` strings;  unref: all unreferenced `$_u…` (condition `true`);
+        #   tail_unref: the first min(n, M) referenced, the surplus unreferenced;  head_unref: unreferenced first, the surplus referenced;
+        #   mixed: each string referenced or unreferenced at random
+        shapes = ["ref", "anon", "unref", "tail_unref", "head_unref", "mixed"]
+        cfgs = [(M, n, sh) for (M, n) in cfgs[:len(cfgs) - (25 if self.tier == "quick" else 200)] for sh in shapes if M < 1000 or sh in ("ref", "tail_unref")] + \
+               [(M, n, self.r.choice(shapes)) for (M, n) in cfgs[len(cfgs) - (25 if self.tier == "quick" else 200):]]
+        for M, n, shape in cfgs:
             if n < 0:
                 continue
-            parts, decl = [], []
+            parts, decl, refd = [], [], []
             total = 0
             i = 0
             while total < n:
                 pieces = 1
                 if n - total >= 3 and M < 1000 and self.r.random() < 0.2:
                     pieces = self.r.choice([2, 3])
+                unref = {"ref": False, "anon": False, "unref": True, "tail_unref": total >= M, "head_unref": total < max(n - M, 1) and n > 1,
+                         "mixed": self.r.random() < 0.5}[shape]
+                name = "$" if shape == "anon" else ("$_u%d" % i if unref else "$s%d" % i)
+                if not unref and shape != "anon":
+                    refd.append(name)
                 if pieces == 1:
-                    decl.append('$s%d = "str%06d"' % (i, i))
+                    decl.append('%s = "str%06d"' % (name, i))
                 else:
                     gaps = " ".join("[300] %02x %02x %02x %02x" % (i % 251, 7, j, 9) for j in range(pieces - 1))
-                    decl.append("$s%d = { %02x 02 03 04 %s }" % (i, i % 251, gaps))
+                    decl.append("%s = { %02x 02 03 04 %s }" % (name, i % 251, gaps))
                 parts.append(pieces); total += pieces; i += 1
             default = M == self.c["DEFAULT_MAX_STRINGS_PER_RULE"]
             if n == 0:
                 rule = "rule r { condition: true }"
-            else:
+            elif shape in ("ref", "anon"):
                 rule = "rule r { strings: %s condition: any of them }" % " ".join(decl)
-            self.add("sp", "compile m=spr%s parts=%s text=%s" % ("" if default else " M=%d mspr=%d" % (M, M), ",".join(map(str, parts)) or "0", hx(rule)))
+            else:
+                rule = "rule r { strings: %s condition: %s }" % (" ".join(decl), ("any of ($s*)" if refd else "true"))
+            self.add("sp", "compile m=spr%s parts=%s shape=%s text=%s" % ("" if default else " M=%d mspr=%d" % (M, M), ",".join(map(str, parts)) or "0", shape, hx(rule)))
 
     # ---- scan level
     def stack(self):
@@ -530,6 +569,10 @@ class Gen:
         rule = hx('rule t { strings: $a = "zzzz" condition: $a }')
         for nb, bs, sl, tmo in ((8, 64, 300, 1), (6, 1000, 400, 1), (5, 4095, 400, 1), (3, 64, 100, 5), (4, 5000, 350, 1)):
             self.add("bt", "scanblocks m=blocktimeout nblocks=%d bsize=%d sleep_ms=%d timeout=%d text=%s" % (nb, bs, sl, tmo, rule))
+        # the same over a NON-BLOCKING iterator (ERROR_BLOCK_NOT_READY, the caller waits and resumes): every single wait is shorter
+        # than the timeout, the scan as a whole is not — the deadline counts from the scan's first call, not from the last resume
+        for nb, bs, sl, tmo in ((8, 64, 300, 1), (6, 1000, 400, 1), (12, 4095, 150, 1), (3, 64, 100, 5), (30, 64, 60, 1), (4, 5000, 350, 1)):
+            self.add("bt", "scanblocks m=blocktimeout nb=1 nblocks=%d bsize=%d sleep_ms=%d timeout=%d text=%s" % (nb, bs, sl, tmo, rule))
 
     def set_timeout(self):
         if self.explicit:
@@ -659,7 +702,7 @@ class Gen:
         self.add("mt", line)
 
     def all(self):
-        self.ml(); self.fib(); self.regex(); self.loops(); self.idents(); self.intlits(); self.literal_sequences(); self.includes()
+        self.ml(); self.fib(); self.regex(); self.loops(); self.idents(); self.intlits(); self.literal_sequences(); self.includes(); self.file_sequences()
         self.strings_per_rule(); self.stack(); self.set_timeout(); self.loop_stack(); self.fiber_reuse(); self.tmm_reuse(); self.block_timeouts(); self.config_round_trip(); self.matches()
         return self.cases
 
@@ -762,7 +805,7 @@ def run(tier, replay=None):
                 ("small", Gen(core.rng("C15/small"), cs, True, tier, "s").all())]
     evaluations, nontrivial, hist, samples, validated = 0, set(), {}, [], 0
     LIMIT_TOKENS = ("TOO_MANY_MATCHES", "EXEC_STACK_OVERFLOW", "LOOP_NESTING", "includes_", "TOO_MANY_STRINGS", "identifier_too_long",
-                    "INTEGER_OVERFLOW", "TOO_COMPLEX", "TOO_LARGE", "TOO_MANY_RE_FIBERS", "tmm=", "000000000", "cfg.")
+                    "INTEGER_OVERFLOW", "TOO_COMPLEX", "TOO_LARGE", "TOO_MANY_RE_FIBERS", "SCAN_TIMEOUT", "tmm=", "000000000", "cfg.")
     for variant, cases in sets:
         if not cases:
             continue
